@@ -76,7 +76,11 @@ state `processAll` enters the phase with (`phaseInput_holds`) and restates (d), 
 `augment_error_list_order_independent_processAll`).  What remains there are two decidable predicates
 on the loaded statements: `AugPosDistinct` (augment statements of one module stand at different
 positions) and `AugArgsPlain` (augment arguments are absolute schema node identifiers); C07Bridge
-shows by kernel-checked witnesses that neither can be dropped (`augPosDistinct_needed`, the `..` example).
+shows by kernel-checked witnesses that neither can be dropped (`augPosDistinct_needed`, the `..` example),
+derives `AugPosDistinct` for registries loaded from C02-admissible texts (`augPosDistinct_of_loadTexts`;
+the `_loadTexts` restatements keep `AugArgsPlain` only), and proves the error-set equality also when
+pending augment entries carry errors of their own (`phaseStart_keysUnique`,
+`augment_error_set_order_independent_processAll`).
 Outside the claim, as in the property text: the implicit case of a shorthand choice member as
 target (such an augment is applied by the leftover pass after FixChoice; (f) counts it as
 applied there) and uses-augment.
